@@ -3092,6 +3092,17 @@ def run_ragged_snippet(language, code, cwd, example_var='sa'):
         m = _EXAMPLE_RE.search(text)
         if m:
             res.example_position, res.example_comment_k, ex_line = m.group(1), int(m.group(2)), line
+    if ex_line is None:
+        # other wording: any comment that speaks of an example; position word and 'k = N' are read where present
+        for line, text in comments:
+            if re.search(r'example', text, re.I):
+                ex_line = line
+                mp = re.search(r'\b(first|second|third)\b', text)
+                mk = re.search(r'\bk\s*=\s*(-?\d+)', text)
+                res.example_position = mp.group(1) if mp else None
+                res.example_comment_k = int(mk.group(1)) if mk else None
+    if ex_line is None and stmts:
+        ex_line = stmts[-1].line - 1        # no comment at all: the last statement is the example
     pre = [s for s in stmts if ex_line is None or s.line <= ex_line]
     example = [s for s in stmts if ex_line is not None and s.line > ex_line]
     it.run(pre)
